@@ -487,12 +487,17 @@ func run(c *core.Ctx) error {
 	}
 	if c.Thorough() {
 		models = append(models,
-			modelCfg{"MCSearchers_c08_t_flat.cfg", 6, 29 * time.Minute},
-			modelCfg{"MCSearchers_c08_t_flat_none.cfg", 4, 29 * time.Minute},
-			modelCfg{"MCSearchers_c08_t_heap.cfg", 3, 29 * time.Minute},
-			modelCfg{"MCSearchers_c08_t_deep.cfg", 4, 29 * time.Minute},
-			modelCfg{"MCSearchers_c08_t_deep_none.cfg", 4, 29 * time.Minute},
-			modelCfg{"MCSearchers_c08_t_hist.cfg", 3, 29 * time.Minute})
+			modelCfg{"MCSearchers_c08_q_core.cfg", 2, 29 * time.Minute},
+			modelCfg{"MCSearchers_c08_t_flat.cfg", 3, 29 * time.Minute},
+			modelCfg{"MCSearchers_c08_t_flat2.cfg", 3, 29 * time.Minute},
+			modelCfg{"MCSearchers_c08_t_none.cfg", 3, 29 * time.Minute},
+			modelCfg{"MCSearchers_c08_t_heap.cfg", 2, 29 * time.Minute},
+			modelCfg{"MCSearchers_c08_t_deep.cfg", 3, 29 * time.Minute},
+			modelCfg{"MCSearchers_c08_t_deep_none.cfg", 3, 29 * time.Minute},
+			modelCfg{"MCSearchers_c08_t_hist.cfg", 2, 29 * time.Minute})
+	}
+	if os.Getenv("VERIF_DEV_SKIP_MODEL") != "" { // development aid (mutant runs): the model does not depend on the code
+		models = nil
 	}
 	var wg sync.WaitGroup
 	for _, m := range models {
@@ -759,6 +764,8 @@ func judge(c *core.Ctx, all []*recT, account bool) error {
 	c.AddExtra("records_judged_contract", int64(len(strict)))
 	c.AddExtra("records_judged_enum_is_hits", int64(len(hits)))
 	c.AddExtra("records_prone_to:"+SigQ2, int64(len(q2)))
+	sigSeen := map[string]bool{}
+	detailed := 0
 	tolerantFailed := map[*recT]bool{}
 	for _, f := range fails {
 		if f.class == "q2-tolerant" {
@@ -780,12 +787,27 @@ func judge(c *core.Ctx, all []*recT, account bool) error {
 				f.inv, f.rc.Eng, f.rc.Opts, mustJSON(f.rc.QJSON), f.rc.NLive, f.rc.Enum)
 			c.Violation(sig, what, replayData(f.rc, nil))
 		default:
+			if f.inv == "Forward" {
+				c.Inconclusive(fmt.Sprintf("harness generated a non-forward program (engine %s, query %s): %s", f.rc.Eng, mustJSON(f.rc.QJSON), mustJSON(f.progs)))
+				continue
+			}
 			inv := f.inv
 			if f.class == "q2-tolerant" {
 				inv += "(beyond:" + SigQ2 + ")"
 			}
-			bad := firstBadProgram(c, f.rc, f.progs)
 			sig := fmt.Sprintf("%s:%s:%s:%s", inv, f.rc.Eng, scoreName(f.rc.Opts.Score), f.rc.Q.Shape())
+			if sigSeen[sig] {
+				continue
+			}
+			sigSeen[sig] = true
+			var bad []callT
+			if len(f.progs) > 0 {
+				bad = f.progs[0]
+			}
+			if detailed < 3 { // one more TLC run per failure: only for the first few
+				detailed++
+				bad = firstBadProgram(c, f.rc, f.progs)
+			}
 			what := fmt.Sprintf("%s violated: engine %s %s query %s over %d live documents (enumeration ranks %v): program %s",
 				inv, f.rc.Eng, f.rc.Opts, mustJSON(f.rc.QJSON), f.rc.NLive, f.rc.Enum, mustJSON(bad))
 			c.Violation(sig, what, replayData(f.rc, [][]callT{bad}))
